@@ -1,4 +1,5 @@
 import CJ.Lemmas.Announce
+import CJ.Lemmas.AnnounceStation
 import CJ.Props.C10
 /-!
 # C10 over time — the detector's session table covers what the station accepts, along every history
@@ -236,5 +237,108 @@ example : emitted (.register ("192.122.190.5", "id") 1 0)
     (step (codeParams regOf4) (stationCfg [1]) (Announce.run (codeParams regOf4) (stationCfg [1]) []) (.register ("192.122.190.5", "id") 1 0)).2 =
       some (("192.122.190.5", "id"), .new) := by
   simp [Announce.run, step, regStep, CJ.Registry.register, stationCfg, emitted]
+
+/-! ### the shutdown sequence and the channel's availability
+
+`CJ.Announce.Station` puts the ingest pipeline (a registration parked in its covert resolution / liveness
+probe between `TrackRegistration` and `AddRegistration`), `main`'s `cancel(); wg.Wait()` (`stop`), the deferred
+`Cleanup()` (`cleanup`) and the reachability of the Redis server around the history model. -/
+
+/-- everything that can announce a registration from the pipeline runs inside a goroutine the wait groups
+count, and `main` waits on them before it returns — go/ast facts of the tree under test -/
+def pipelineSync : Bool :=
+  CJ.Gen.C10.asyncIngestCalls.isEmpty && CJ.Gen.C10.workersCounted && CJ.Gen.C10.mainWaitsForPipeline
+
+/-- **`startIngestThread` ingests synchronously, the workers are counted, `main` waits for them** -/
+theorem pipeline_synchronous : pipelineSync = true := by decide
+
+/-- the station of the tree under test -/
+def stationParams (regOf : CJ.Registry.Key → Reg) : SParams :=
+  { P := codeParams regOf, clear := CJ.Gen.C10.clearMsg, sync := pipelineSync }
+
+theorem avail_append (up : Bool) (a b : List SOp) : avail up (a ++ b) = avail (avail up a) b := by
+  induction a generalizing up with
+  | nil => rfl
+  | cons e es ih => rw [List.cons_append, avail_cons, ih, ← avail_cons]
+
+/-- **After `stop; cleanup` the clear request is the last message and the detector's table is empty and
+stays empty.**  Whatever happened before (`pre`: registrations in one piece or parked in their probes,
+connections, sweeps, outages of the channel — from any station state), if the channel is reachable when
+`main` shuts down, then after `cancel(); wg.Wait()` (with any outcomes of the probes still running) and the
+deferred `Cleanup()`, and after any further activity of the pipeline, the sweepers and the channel (`post`):
+what reached the channel is what had reached it when `wg.Wait()` returned, followed by the Clear — in
+particular every announcement of a registration that was mid-ingest comes *before* the Clear — and the
+detector forwards nothing.  Premise in the code: `pipeline_synchronous`.  (Connection handlers are not
+waited for by `main`: `MarkActive` after the shutdown is outside `post`, see the plan's assumptions.) -/
+theorem shutdown_leaves_nothing (regOf : CJ.Registry.Key → Reg) (enabled : List Nat)
+    (pre post : List SOp) (st0 : Station) (n1 n2 : Nat) (outs : List Bool)
+    (hup : avail st0.up pre = true) (hq : ∀ e ∈ post, e.quiet = true) :
+    (srun (stationParams regOf) (stationCfg enabled) (pre ++ [.stop n1 outs, .cleanup n2] ++ post) st0).log =
+      (srun (stationParams regOf) (stationCfg enabled) (pre ++ [.stop n1 outs]) st0).log ++ [.clear] ∧
+    (srun (stationParams regOf) (stationCfg enabled) (pre ++ [.stop n1 outs, .cleanup n2] ++ post) st0).sys.det = [] := by
+  have hsplit : pre ++ [SOp.stop n1 outs, SOp.cleanup n2] ++ post = (pre ++ [SOp.stop n1 outs]) ++ ([SOp.cleanup n2] ++ post) := by
+    simp
+  rw [hsplit, srun_append, srun_append]
+  generalize hA : srun (stationParams regOf) (stationCfg enabled) (pre ++ [SOp.stop n1 outs]) st0 = sA
+  have hqA : Quiesced sA := by
+    rw [← hA, srun_append]
+    exact stop_quiesced (stationParams regOf) _ pipeline_synchronous _ n1 outs
+  have hupA : sA.up = true := by
+    rw [← hA, srun_up, avail_append, hup]; rfl
+  have hC : srun (stationParams regOf) (stationCfg enabled) [SOp.cleanup n2] sA = publish (stationParams regOf) n2 sA .clear := rfl
+  rw [hC]
+  have hctl := publish_ctl (stationParams regOf) n2 sA .clear
+  have hlog := publish_log (stationParams regOf) n2 sA .clear
+  have hdet := publish_det (stationParams regOf) n2 sA .clear
+  rw [hupA] at hlog hdet
+  simp only [if_true] at hlog hdet
+  have hdet' : (publish (stationParams regOf) n2 sA .clear).sys.det = [] := by
+    rw [hdet]; exact clear_of_code_acted_on n2 sA.sys.det
+  have hqC : Quiesced (publish (stationParams regOf) n2 sA .clear) := ⟨hctl.2.1.trans hqA.1, hctl.1.trans hqA.2⟩
+  obtain ⟨h1, h2⟩ := quiet_run (stationParams regOf) (stationCfg enabled) post hq _ hqC hdet'
+  exact ⟨h1.trans hlog, h2⟩
+
+/-- **A publication depends on the channel's availability at that moment only.**  After any history of the
+station — registrations, failed publications, an outage at the very first access — a message reaches the
+channel iff the last thing the channel did was come up (`avail` looks at `chanUp` / `chanDown` events only),
+and then it is appended to what had reached it before.  There is no "the client never connected" state. -/
+theorem publication_depends_only_on_current_availability (Q : SParams) (c : CJ.Registry.Cfg) (evs : List SOp)
+    (st0 : Station) (now : Nat) (m : Msg) :
+    (publish Q now (srun Q c evs st0) m).log =
+      if avail st0.up evs then (srun Q c evs st0).log ++ [m] else (srun Q c evs st0).log := by
+  rw [publish_log, srun_up]
+
+/-- in particular the clear request of a shutdown that finds the channel up empties the detector's table,
+whatever the channel did before -/
+theorem clear_delivered_when_up (regOf : CJ.Registry.Key → Reg) (enabled : List Nat) (evs : List SOp) (st0 : Station)
+    (now : Nat) (hup : avail st0.up evs = true) :
+    (srun (stationParams regOf) (stationCfg enabled) (evs ++ [.cleanup now]) st0).sys.det = [] ∧
+    (srun (stationParams regOf) (stationCfg enabled) (evs ++ [.cleanup now]) st0).log =
+      (srun (stationParams regOf) (stationCfg enabled) evs st0).log ++ [.clear] := by
+  rw [srun_append]
+  have hC : ∀ s, srun (stationParams regOf) (stationCfg enabled) [SOp.cleanup now] s = publish (stationParams regOf) now s .clear :=
+    fun _ => rfl
+  rw [hC, publish_det, publish_log, srun_up, hup]
+  exact ⟨clear_of_code_acted_on now _, rfl⟩
+
+/-- while the channel is up and the station runs, an event of the history model does to registry and
+detector exactly what `CJ.Announce.step` says: the theorems about histories carry over to the station -/
+theorem station_follows_history (Q : SParams) (c : CJ.Registry.Cfg) (st : Station) (o : HOp)
+    (hu : st.up = true) (hs : st.stopped = false) :
+    (sstep Q c st (.op o)).sys = (step Q.P c st.sys o).1 := by
+  have h1 : sstep Q c st (.op o) = regEvent Q c st o := by simp [sstep, hs]
+  have hv : ∀ (now : Nat) (s : Station) (e : Option (CJ.Registry.Key × Kind)), s.up = true →
+      (viaChannel Q now s e).sys = { reg := s.sys.reg, det := announceTo Q.P now s.sys.det e } := by
+    intro now s e hu'
+    cases e with
+    | none => rfl
+    | some a =>
+      obtain ⟨k, kind⟩ := a
+      simp [viaChannel, publish, hu', announceTo, Msg.s2d]
+  rw [h1]
+  unfold regEvent step detStep
+  have hw : (withReg st (regStep c st.sys.reg o).1).up = true := hu
+  have := hv o.time (withReg st (regStep c st.sys.reg o).1) (emitted o (regStep c st.sys.reg o).2) hw
+  cases o <;> simp_all [afterSweep, withReg]
 
 end CJ.Props.C10
